@@ -7,6 +7,7 @@ From SVC Require Import Base.AMap Base.Res Base.Dec Model.Types Model.Pricing Mo
   Model.Queries.
 From SVC Require Proofs.QueryProofs Proofs.Inv Proofs.ReachProps.
 From SVC Require Model.EndBlock Model.Step Proofs.ReachRun Proofs.GapC17.
+From SVC Require Base.Bytes gen.KeysGen Proofs.GapC17K.
 Import ListNotations.
 Open Scope Z_scope.
 
@@ -365,3 +366,27 @@ Theorem C17_same_answers_refuted :
     /\ (exists l, q_earned_fees s prov = AOk l) /\ lq_earned_fees false s prov = AErr.
 Proof. exact GapC17.C17_same_answers_refuted. Qed.
 Print Assumptions C17_same_answers_refuted.
+
+(* Bridge to the key layer (C18): the prefix scans behind the two binding listings select exactly
+   what the model's atom-level filters select, for any injective zero-free byte form of the
+   service names (so also for names that are prefixes of one another) and 20-byte owners. *)
+Theorem C17_bindings_scan_is_filter :
+  forall (bech : Bytes.bytes -> Bytes.bytes) (nb ab : Z -> Bytes.bytes),
+    (forall a b, nb a = nb b -> a = b) -> (forall a, Bytes.zero_free (nb a)) ->
+    forall (s : State) svc k b, In (k, b) (binds s) ->
+      (Bytes.is_prefix (KeysGen.GetBindingsSubspace (nb svc))
+                       (KeysGen.GetServiceBindingKey bech (nb (fst k)) (ab (snd k)))
+       <-> In (k, b) (bindings_of_service s svc)).
+Proof. exact GapC17K.bindings_scan_is_filter. Qed.
+Print Assumptions C17_bindings_scan_is_filter.
+
+Theorem C17_owner_bindings_scan_is_filter :
+  forall (nb ab : Z -> Bytes.bytes),
+    (forall a b, nb a = nb b -> a = b) -> (forall a, Bytes.zero_free (nb a)) ->
+    (forall a b, ab a = ab b -> a = b) ->
+    forall owner svc o sv p, length (ab owner) = 20%nat -> length (ab o) = 20%nat ->
+      (Bytes.is_prefix (KeysGen.GetOwnerBindingsSubspace (ab owner) (nb svc))
+                       (KeysGen.GetOwnerServiceBindingKey (ab o) (nb sv) (ab p))
+       <-> ((o =? owner) && (sv =? svc) = true)).
+Proof. exact GapC17K.owner_bindings_scan_is_filter. Qed.
+Print Assumptions C17_owner_bindings_scan_is_filter.
